@@ -48,7 +48,9 @@ func runC09(c *Ctx) error {
 		}
 		primes[g] = new(big.Int).SetBytes(L(A(ph)).B(0)) // the RFC constant of Spec/Modp.v
 	}
-	fail := func(what, cs, exp, obs string) { r.Add(Finding{Kind: "instance", What: what, Case: cs, Expected: exp, Observed: obs}) }
+	fail := func(what, cs, exp, obs string) {
+		r.Add(Finding{Kind: "instance", What: what, Case: cs, Expected: exp, Observed: obs})
+	}
 	two := big.NewInt(2)
 	nFull := c.N(3, 40)
 	for _, g := range []string{"2", "14"} {
@@ -180,7 +182,7 @@ func runC09(c *Ctx) error {
 	}
 	// GenerateRandomNumber with scripted sources
 	ones := bytes.Repeat([]byte{0xff}, 256)
-	small := append(make([]byte, 240), bytes.Repeat([]byte{0xff}, 16)...) // = 2^128 - 1: rejected
+	small := append(make([]byte, 240), bytes.Repeat([]byte{0xff}, 16)...)        // = 2^128 - 1: rejected
 	just := append(make([]byte, 239), append([]byte{1}, make([]byte, 16)...)...) // = 2^128: accepted
 	scripts := []struct {
 		data  []byte
@@ -282,14 +284,15 @@ func runC09(c *Ctx) error {
 	return evalIkesaPairs(c, primes, c.N(4, 60))
 }
 
-
 // NewIKESAKey end to end: two parties, scripted exponents; local public value = 2^x mod p; both derive the keys an
 // independent party derives from g^ir of the modulus length (used by C09 and C07)
 func evalIkesaPairs(c *Ctx, primes map[string]*big.Int, n int) error {
 	r := c.R
 	rng := c.Rng
 	two := big.NewInt(2)
-	fail := func(what, cs, exp, obs string) { r.Add(Finding{Kind: "instance", What: what, Case: cs, Expected: exp, Observed: obs}) }
+	fail := func(what, cs, exp, obs string) {
+		r.Add(Finding{Kind: "instance", What: what, Case: cs, Expected: exp, Observed: obs})
+	}
 	if primes == nil {
 		primes = map[string]*big.Int{}
 		for _, g := range []string{"2", "14"} {
@@ -305,7 +308,9 @@ func evalIkesaPairs(c *Ctx, primes map[string]*big.Int, n int) error {
 		g := []string{"2", "14"}[i%2]
 		s := genSuite(rng)
 		prop := &message.Proposal{ProtocolID: message.TypeIKE}
-		mk := func(ty uint8, id uint16) *message.Transform { return &message.Transform{TransformType: ty, TransformID: id} }
+		mk := func(ty uint8, id uint16) *message.Transform {
+			return &message.Transform{TransformType: ty, TransformID: id}
+		}
 		prop.DiffieHellmanGroup = append(prop.DiffieHellmanGroup, mk(4, map[string]uint16{"2": 2, "14": 14}[g]))
 		prop.EncryptionAlgorithm = append(prop.EncryptionAlgorithm, &message.Transform{TransformType: 1, TransformID: 12, AttributePresent: true,
 			AttributeFormat: 1, AttributeType: 14, AttributeValue: uint16(encrKeyLen[s.e] * 8)})
@@ -355,6 +360,30 @@ func evalIkesaPairs(c *Ctx, primes map[string]*big.Int, n int) error {
 		gir := padTo(new(big.Int).Exp(new(big.Int).SetBytes(pubB), new(big.Int).SetBytes(xa), p).Bytes(), dhLen[g])
 		if ref, _ := implGenIkesa(s, nonce, gir, si, sr); ref != saKeysSX(kb) {
 			fail("the keys NewIKESAKey derives are not those of prf+ over SKEYSEED = prf(Ni|Nr, g^ir) with g^ir of the modulus length", cs, ref, saKeysSX(kb))
+		}
+		// one party, ANY peer value 0 <= y < 2^2056 in any representation (shorter than the modulus, with leading zero
+		// octets, one octet longer than the modulus, >= p): the shared secret is y^x mod p all the same
+		L0 := dhLen[g]
+		ys := [][]byte{{}, {1}, rng.Bytes(L0 / 2), rng.Bytes(L0), append([]byte{0}, rng.Bytes(L0)...), append([]byte{byte(1 + rng.Intn(255))}, rng.Bytes(L0)...),
+			append(rng.Bytes(1), pubA...), p.Bytes(), new(big.Int).Add(p, big.NewInt(1)).Bytes()}
+		if g == "2" {
+			ys = append(ys, append(rng.Bytes(129), rng.Bytes(L0)...)) // up to 257 octets for the 1024-bit group as well
+		}
+		for _, y := range ys {
+			var ky *security.IKESAKey
+			var errY error
+			withScript(xb, nil, func(*scriptReader) { ky, _, errY = security.NewIKESAKey(prop, y, nonce, si, sr) })
+			ycs := fmt.Sprintf("(new_ikesa_peer %s %s %s %s)", g, s, hx(xb), hx(y))
+			r.ImplRuns++
+			r.Count(ycs, true, fmt.Sprintf("new-ikesa-peer:group%s:peer-octets=%d", g, len(y)))
+			if errY != nil {
+				fail("NewIKESAKey fails for a supported proposal and a peer value below 2^2056", ycs, "ok", fmt.Sprint(errY))
+			} else {
+				sec := padTo(new(big.Int).Exp(new(big.Int).SetBytes(y), new(big.Int).SetBytes(xb), p).Bytes(), L0)
+				if ref, _ := implGenIkesa(s, nonce, sec, si, sr); ref != saKeysSX(ky) {
+					fail("the keys NewIKESAKey derives from a peer value are not those of the shared secret y^x mod p of the modulus length", ycs, ref, saKeysSX(ky))
+				}
+			}
 		}
 	}
 	return nil
